@@ -602,6 +602,23 @@ func c08Alphabet() []hist.Op {
 	return ops
 }
 
+func c08SingleScenario() *hist.Scenario {
+	return &hist.Scenario{Name: "parse-entry-points-single-template", RootName: "root", Init: `<p title="{{.S}}">{{.S}}</p>`, Texts: []string{`x`}, Data: histData()}
+}
+
+func c08ParseAlphabet() []hist.Op {
+	var ops []hist.Op
+	for a := 1; a <= 3; a++ {
+		ops = append(ops, hist.Op{Kind: hist.ParseFiles, H: 0, Arg: a}, hist.Op{Kind: hist.ParseGlob, H: 0, Arg: a})
+	}
+	for a := 3; a <= 6; a++ {
+		ops = append(ops, hist.Op{Kind: hist.ParseFS, H: 0, Arg: a})
+	}
+	return append(ops, hist.Op{Kind: hist.ParseFiles, H: 0, Arg: 0},
+		hist.Op{Kind: hist.Exec, H: 0, Form: 0, Arg: 0}, hist.Op{Kind: hist.Exec, H: 0, Form: 1, Arg: 0}, hist.Op{Kind: hist.Exec, H: 0, Form: 2, Name: "fa", Arg: 0},
+		hist.Op{Kind: hist.Templates, H: 0}, hist.Op{Kind: hist.Clone, H: 0, Dst: 2}, hist.Op{Kind: hist.Exec, H: 2, Form: 0, Arg: 0})
+}
+
 // histObsSubcommand (vcheck hist-obs <scenario> <ops JSON>) prints the observation of the last call of a history run
 // in this, freshly started, process. histProcessFresh compares such observations with the ones obtained at the end
 // of a long exploration in the checking process: state that the library keeps outside the template set (package
@@ -677,6 +694,10 @@ func buildHistScenarios() {
 	rp := c08Scenario()
 	rp.Name = "replaced-template"
 	histScenarios[rp.Name] = rp
+	pe := c08Scenario()
+	pe.Name = "parse-entry-points"
+	histScenarios[pe.Name] = pe
+	histScenarios["parse-entry-points-single-template"] = c08SingleScenario()
 	fa := c07Scenario()
 	fa.Name = "failed-analysis-then-clone"
 	fa.Init = `{{define "bad"}}<a href="{{end}}{{define "cbad"}}<p>{{template "bad"}}</p>{{end}}{{define "bad2"}}{{if .S}}<a href="{{end}}{{.S}}{{end}}` + fa.Init
@@ -875,6 +896,30 @@ func checkC08(r *core.Run) {
 	r.Set("scenario_replaced-template", fmt.Sprintf("%d ops, depth<=%d: histories=%d", len(rpAlpha), depth+1, st2.states))
 	r.Add("states", st2.states)
 	r.Add("transitions", st2.transitions)
+	// the file-based entry points with every kind of argument list: none, missing, matching nothing, malformed,
+	// a file that does not parse and is named like the receiver
+	pe := c08Scenario()
+	pe.Name = "parse-entry-points"
+	var st3 histStats
+	exploreHist(r, pe, c08ParseAlphabet(), depth+1, true, &st3, func(f histFinding, ops []hist.Op) {
+		if c08Clauses[f.clause] {
+			r.Witness(f.clause, pe.Name+" "+f.discr, renderOps(ops), f.detail, histReplay{pe.Name, append([]hist.Op{}, ops...)})
+		}
+	})
+	r.Set("scenario_parse-entry-points", fmt.Sprintf("%d ops, depth<=%d: histories=%d", len(c08ParseAlphabet()), depth+1, st3.states))
+	r.Add("states", st3.states)
+	r.Add("transitions", st3.transitions)
+	// the same calls on a set whose only member is the receiver
+	ps := c08SingleScenario()
+	var st4 histStats
+	exploreHist(r, ps, c08ParseAlphabet(), depth+1, true, &st4, func(f histFinding, ops []hist.Op) {
+		if c08Clauses[f.clause] {
+			r.Witness(f.clause, ps.Name+" "+f.discr, renderOps(ops), f.detail, histReplay{ps.Name, append([]hist.Op{}, ops...)})
+		}
+	})
+	r.Set("scenario_parse-entry-points-single-template", fmt.Sprintf("%d ops, depth<=%d: histories=%d", len(c08ParseAlphabet()), depth+1, st4.states))
+	r.Add("states", st4.states)
+	r.Add("transitions", st4.transitions)
 	c08Syntax(r)
 	r.Sample(map[string]string{"scenario": "totality", "history": renderOps(c08Alphabet()[:3])})
 	r.Assume("every API call runs under recover and a 30 s watchdog (the calls take microseconds); a timeout is only a hang if it reproduces")
